@@ -22,7 +22,7 @@ RULE = (
     "each recipe evaluated by NumPy and by cubed under >=2 configurations of executor x optimize_graph. "
     "A case (recipe, configuration) is non-trivial when some leaf has more than one block and cubed "
     "returned values that were compared; distinct = distinct hash of (recipe, configuration)."
-    " Plus a bounded-exhaustive parameter sweep: single-operation recipes enumerating the discrete parameters of the public functions for 1-3 dimensions (every ordered choice of tensordot contraction axes; per-dimension {all, reversed, strided, reversed+strided, integer} indexing with a new axis at every position; all axis permutations, moveaxis pairs, flip/reduction axis subsets x keepdims, roll, arg-reductions, scans, diff, repeat, take, unstack, concat/stack/expand_dims positions, pad widths, tril/triu offsets, vecdot axes: 857 cases), geometry drawn at random, each run optimised and unoptimised."
+    " Plus a bounded-exhaustive parameter sweep: single-operation recipes enumerating the discrete parameters of the public functions for 1-3 dimensions (every ordered choice of tensordot contraction axes; per-dimension {all, reversed, strided, reversed+strided, integer} indexing with a new axis at every position; all axis permutations, moveaxis pairs, flip/reduction axis subsets x keepdims, roll, arg-reductions, scans, diff, repeat, take, unstack, concat/stack/expand_dims positions, pad widths, tril/triu offsets, vecdot axes, ordered block selections through Array.blocks: 1032 cases; reshape splitting or merging dimensions of sizes 6-12 for every chunking), geometry drawn at random, each run optimised and unoptimised."
 )
 ASSUMPTIONS = [
     "NumPy 2.x evaluation of the recipe is the reference; candidates NumPy itself rejects are out of scope",
@@ -80,7 +80,7 @@ def finalize(tier, merged):
     return {
         "rule": RULE,
         "floors": [
-            ("parameter-sweep cases run (of 857 enumerated)", c.get("param_sweep_cases", 0), 700),
+            ("parameter-sweep cases run (of 1032 enumerated)", c.get("param_sweep_cases", 0), 850),
             ("outputs compared with NumPy", c.get("outputs_compared", 0), floor),
             ("distinct public functions exercised", len(merged["hist"].get("ops", {})), 100),
         ],
